@@ -273,7 +273,14 @@ def run(ctx):
             full_done = True
     ce.instance('save: the listed template %s is put only after %s on every path' % (disc, others), save.qualname, bad is None,
                 detail='sequences: %s' % sorted({k[1] for k in seqs}))
+    partial = [(n, s, seq) for (is_ret, seq), (n, s) in seqs.items() if is_ret and 0 < len(seq) < len(templates)]
     ce.instance('save: a normal completion that samples the recording writes both objects', save.qualname, full_done)
+    ce.instance('save: no returning path writes the full object without the listed object', save.qualname, not partial)
+    if partial:
+        n, s, seq = partial[0]
+        res.add(Finding('C15', 'C15.e', 'R-ORDER', save.file, save.qualname, save.node.lineno, 'returning path with puts %s only' % (seq,),
+                        'save can return after writing %s without writing the object that lookup lists (%s): the recording is stored but can never be '
+                        'discovered' % (list(seq), disc), witness=dsave.path_to(n, s)))
     if bad:
         n, s, seq = bad
         res.add(Finding('C15', 'C15.e', 'R-ORDER', save.file, save.qualname, save.node.lineno, 'put order %s' % (seq,),
@@ -320,3 +327,30 @@ def resolve_key(fn, e, depth=0):
         lit = idv.value if isinstance(idv, ast.Constant) else None
         return t, okp, lit
     return None, False, None
+
+
+def save_completeness(ctx, res, clause, prop, cid):
+    """no returning path of S3 save writes the full object without the object that lookup lists"""
+    repo = ctx.repo
+    cas = repo.cls('S3TapeCassette')
+    fac = repo.cls('S3BasicFacade')
+    mutators = [m for m in fac.methods.values() if any(isinstance(n, ast.Call) and isinstance(n.func, ast.Attribute) and n.func.attr in BOTO_MUTATORS
+                                                       for n in ast.walk(m.node))]
+    excm = ctx.excm(['playback.tape_cassettes.s3.s3_tape_cassette', 'playback.tape_cassettes.s3.s3_basic_facade', 'playback.tape_cassette'])
+    save = cas.lookup('_save_recording')
+    templates = {k for k, v in cas.consts.items() if isinstance(v, ast.Constant) and isinstance(v.value, str) and '{key_prefix}' in v.value}
+    d = small.analyse(repo, excm, save, policy=S3Policy(repo, excm), self_cls=cas, domain=S3Domain, mutators=mutators)
+    clause.evaluations += d.visited_pairs
+    partial = None
+    seqs = set()
+    for n, s in d.exits:
+        seq = tuple(resolve_key(save, parse_expr(k))[0] for f, k in s.extra.get('muts', ()))
+        seqs.add((n.info['exit'] == 'return', seq))
+        if n.info['exit'] == 'return' and 0 < len(seq) < len(templates):
+            partial = partial or (n, s, seq)
+    clause.instance('S3 save: returning paths write %s' % sorted({q for r, q in seqs if r}), save.qualname, partial is None)
+    if partial:
+        n, s, seq = partial
+        res.add(Finding(prop, cid, 'R-ORDER', save.file, save.qualname, save.node.lineno, 'returning path with puts %s only' % (seq,),
+                        'save can return after writing %s only: the recording is stored but the object that the (time-window) lookup lists is missing, so it is '
+                        'never found' % list(seq), witness=d.path_to(n, s)))
